@@ -182,10 +182,18 @@ pub struct Checked {
 /// Runs the real fill and compares every pixel with the model.
 pub fn check_case(case: &Case, dt: &mut DrawTarget) -> Checked {
     let path = case.path();
+    check_case_drawn(case, dt, &path, &Transform::identity())
+}
+
+/// `case` is the device-space polygon the model is evaluated on; what is drawn is `path` under `t`
+/// (the same polygon for the identity; its exact pre-image for the grid-preserving transforms)
+pub fn check_case_drawn(case: &Case, dt: &mut DrawTarget, path: &Path, t: &Transform) -> Checked {
     for p in dt.get_data_mut() {
         *p = 0;
     }
-    dt.fill(&path, &Source::Solid(WHITE), &opts(BlendMode::SrcOver, 1., case.aa));
+    dt.set_transform(t);
+    dt.fill(path, &Source::Solid(WHITE), &opts(BlendMode::SrcOver, 1., case.aa));
+    dt.set_transform(&Transform::identity());
     let es = edges(&case.ops);
     let mut res = Checked { asserted: 0, ambiguous: 0, partial: 0, full: 0, empty: 0, violation: None };
     let mut crossings = Vec::new();
@@ -521,6 +529,83 @@ pub fn run(ctx: &Ctx) -> Outcome {
         }
         co
     });
+    // surfaces at and beyond the sizes where 16.16 and 16-bit quantities wrap: a small polygon anywhere on them
+    run_cases(ctx, &mut out, SubSpec { name: "very_wide_and_very_tall_surfaces", cases: ctx.n(24, 400), exhaustive: false, max_secs: 120. }, |i, want, st| {
+        let mut rng = ctx.rng("very_wide_and_very_tall_surfaces", i);
+        let long = *rng.pick(&[8191i32, 8192, 8193, 16384, 32767, 32768, 32769, 40000, 65535, 65536, 70000]);
+        let short = rng.int(1, 3) as i32;
+        let wide = i % 2 == 0;
+        let (w, h) = if wide { (long, short) } else { (short, long) };
+        // a polygon of a few pixels near the start, the middle or the far end of the long side
+        // (x stays inside the 16.16 working range of +-32767 px whatever the width of the surface)
+        let reach = if wide { (long as i64).min(32700) } else { long as i64 };
+        let at = match rng.below(4) {
+            0 => 0,
+            1 => reach / 2,
+            2 => reach - 9,
+            _ => rng.int(0, reach - 1),
+        };
+        let mut ops = Vec::new();
+        let n = rng.int(3, 6);
+        for k in 0..n {
+            let (a, b) = (4 * at + rng.int(-8, 40), rng.int(-4, 4 * short as i64 + 4));
+            let (x, y) = if wide { (a, b) } else { (b, a) };
+            ops.push(if k == 0 { QOp::Move(x, y) } else { QOp::Line(x, y) });
+        }
+        ops.push(QOp::Close);
+        let c = Case { w, h, ops, evenodd: rng.chance(0.5), aa: rng.chance(0.7) };
+        st.add(if wide { "very_wide_surfaces" } else { "very_tall_surfaces" }, 1);
+        with_target(w, h, |dt| run_one(&c, want, st, dt))
+    });
+
+    // transforms that keep whole-pixel vertices on the quarter grid exactly (unit or doubled diagonal, dyadic
+    // shear on one side or both, quarter translations, quarter turns, mirrors): the model is evaluated on the
+    // exactly transformed polygon, the library fills the original one under the transform
+    run_cases(ctx, &mut out, SubSpec { name: "grid_preserving_transforms", cases: ctx.n(60_000, 1_000_000), exhaustive: false, max_secs: if ctx.quick() { 20. } else { 300. } }, |i, want, st| {
+        let mut rng = ctx.rng("grid_preserving_transforms", i);
+        let base = gen_case(&mut rng);
+        // whole-pixel vertices
+        let snap = |v: i64| (v.div_euclid(4)) * 4;
+        let ops: Vec<QOp> = base.ops.iter().map(|o| match *o { QOp::Move(x, y) => QOp::Move(snap(x), snap(y)), QOp::Line(x, y) => QOp::Line(snap(x), snap(y)), QOp::Close => QOp::Close }).collect();
+        // matrix entries in quarters
+        let one = |rng: &mut Rng| *rng.pick(&[4i64, 4, 4, -4, 8]);
+        let sh = |rng: &mut Rng| *rng.pick(&[0i64, 0, 2, -2, 4, -4, 1, -1, 3]);
+        let (a, b, c, d) = match rng.below(6) {
+            0 => (4, 0, sh(&mut rng), 4),
+            1 => (4, sh(&mut rng), 0, 4),
+            2 => (0, 4, -4, 0),
+            3 => (0, -4, 4, 0),
+            _ => (one(&mut rng), sh(&mut rng), sh(&mut rng), one(&mut rng)),
+        };
+        if a * d - b * c == 0 {
+            return CaseOut::default();
+        }
+        let (tx, ty) = (rng.int(-12, 4 * base.w as i64 + 12), rng.int(-12, 4 * base.h as i64 + 12));
+        // device = user * M + t, in quarter units (user coordinates are multiples of 4, so the division is exact)
+        let map = |x: i64, y: i64| ((a * x + c * y) / 4 + tx, (b * x + d * y) / 4 + ty);
+        let dev_ops: Vec<QOp> = ops.iter().map(|o| match *o { QOp::Move(x, y) => { let p = map(x, y); QOp::Move(p.0, p.1) } QOp::Line(x, y) => { let p = map(x, y); QOp::Line(p.0, p.1) } QOp::Close => QOp::Close }).collect();
+        let user = Case { w: base.w, h: base.h, ops, evenodd: base.evenodd, aa: base.aa };
+        let dev = Case { w: base.w, h: base.h, ops: dev_ops, evenodd: base.evenodd, aa: base.aa };
+        let t = Transform::new(a as f32 / 4., b as f32 / 4., c as f32 / 4., d as f32 / 4., tx as f32 / 4., ty as f32 / 4.);
+        let r = with_target(base.w, base.h, |dt| check_case_drawn(&dev, dt, &user.path(), &t));
+        st.add("pixels_asserted", r.asserted);
+        st.add("pixels_partial_coverage", r.partial);
+        st.add("cases_under_a_grid_preserving_transform", 1);
+        let mut co = CaseOut::default();
+        co.hash = hash_u64s(&[dev.hash(), a as u64, b as u64, c as u64, d as u64]);
+        co.nontrivial = (r.full + r.partial) > 0 && r.empty > 0;
+        if let Some(v) = r.violation {
+            co.viol("C01", format!("under the transform {}: {}", transform_str(&t), v));
+        }
+        if want || !co.violations.is_empty() {
+            let mut dsc = dev.desc();
+            dsc.set("drawn_path", J::s(&path_str(&user.path())));
+            dsc.set("transform", J::s(&transform_str(&t)));
+            co.desc = Some(dsc);
+        }
+        co
+    });
+
     if out.stats.get("pixels_partial_coverage") == 0 && ctx.replay.is_none() {
         out.inconclusive("no partially covered pixel was asserted".to_string());
     }
